@@ -2,6 +2,7 @@ package chunkparser
 
 import (
 	"encoding/binary"
+	"fmt"
 	"io"
 )
 
@@ -55,6 +56,10 @@ func (p *MP4ChunkParser) Parse() error {
 			return nil
 		}
 		size := binary.BigEndian.Uint32(p.buf[nextBoxStart : nextBoxStart+4])
+		if size < 8 {
+			// Not a box (64-bit sizes and size 0 are not supported): without this, size 0 loops forever.
+			return fmt.Errorf("invalid box size %d at offset %d", size, cd.Start+nextBoxStart)
+		}
 		currBox = string(p.buf[nextBoxStart+4 : nextBoxStart+8])
 		nextBoxStart += size
 		switch currBox {
